@@ -56,6 +56,14 @@ def _mk_prob():
 PROB = _mk_prob()
 
 
+def _mk_wrapped():
+    from tensordict.nn import TensorDictModuleWrapper
+    return TensorDictModuleWrapper(MOD_M)
+
+
+WRAPPED = _mk_wrapped()
+
+
 def names_for(n, prefix="d"):
     return [f"{prefix}{i}" for i in range(n)]
 
@@ -883,6 +891,150 @@ def _(td):
     out = PROB(t)
     out.set("sample", out.get("sample").round().long())
     return out.exclude("loc", "scale")
+
+
+# ---------------------------------------------------------------- more index spellings (`_getitem_batch_size` has a compile branch for slices)
+def _mk_index_ops():
+    specs = {
+        "idx_none_first": lambda td: td[None],
+        "idx_ell_none": lambda td: td[..., None],
+        "idx_col0": lambda td: td[:, 0],
+        "idx_0_ell": lambda td: td[0, ...],
+        "idx_neg_step_like": lambda td: td[::1],
+        "idx_slice_neg": lambda td: td[-2:-1],
+        "idx_slice_big": lambda td: td[1:100],
+        "idx_slice_step3": lambda td: td[::3],
+        "idx_slice_none_stop": lambda td: td[:None],
+        "idx_two_slices": lambda td: td[:1, 1:],
+        "idx_int_slice": lambda td: td[0, :1],
+        "idx_tensor": lambda td: td[torch.tensor([1, 0])],
+        "idx_tensor_col": lambda td: td[:, torch.tensor([0])],
+        "idx_range": lambda td: td[range(2)],
+        "idx_bool_mask": lambda td: td[torch.tensor([True] + [False] * (td.batch_size[0] - 1))],
+        "idx_tuple_lists": lambda td: td[[0, 1], [0, 0]],
+        "idx_str": lambda td: td.select("a").update({"s": td["n", "x"] + td["a"]}),
+        "idx_nested_td": lambda td: td["n"],
+    }
+    for name, f in specs.items():
+        OPS[name] = (f, "*", False)
+
+
+_mk_index_ops()
+
+
+@op("setitem_col")
+def _(td):
+    td = td.clone(); td[:, 0] = td[:, -1]; return td
+
+
+@op("setitem_ell")
+def _(td):
+    td = td.clone(); td[..., 0] = td[..., -1]; return td
+
+
+@op("setitem_slice")
+def _(td):
+    td = td.clone(); td[:1] = td[-1:]; return td
+
+
+@op("setitem_tensor_idx")
+def _(td):
+    td = td.clone(); td[torch.tensor([0])] = td[torch.tensor([td.batch_size[0] - 1])]; return td
+
+
+@op("setitem_str")
+def _(td):
+    td = td.clone(False); td["q"] = td["a"] * 2; td["n", "w"] = td["a"]; return td
+
+
+@op("setitem_scalar")
+def _(td):
+    td = td.clone(); td[0] = 0; return td
+
+
+@op("set_at_get_at")
+def _(td):
+    td = td.clone(); td.set_at_("a", td.get_at("a", -1), 0); return td
+
+
+# ---------------------------------------------------------------- more key / structure ops
+@op("rename_nested")
+def _(td):
+    td = td.clone(False); td.rename_key_(("n", "x"), ("n", "z")); return td
+
+
+@op("setdefault")
+def _(td):
+    td = td.clone(False); td.setdefault("sd", td.get("a") + 9); td.setdefault("a", td.get("a") * 0); return td
+
+
+@op("update_nested_dict")
+def _(td):
+    td = td.clone(False); td.update({"n": {"u": td.get("a")}, "v": td.get("a") + 1}); return td
+
+
+@op("named_apply_nested")
+def _(td):
+    return td.named_apply(lambda k, x: x + (len(k) if isinstance(k, tuple) else 10), nested_keys=True)
+
+
+@op("apply_out")
+def _(td):
+    out = td.clone()
+    td.apply(lambda x: x + 3, out=out)
+    return out
+
+
+@op("apply_filter")
+def _(td):
+    return td.apply(lambda x: x * 2 if x.ndim == td.batch_dims else None, filter_empty=True)
+
+
+@op("from_dict")
+def _(td):
+    return TensorDict.from_dict({"a": td.get("a"), "n": {"x": td.get("a") + 1}}, batch_size=td.batch_size)
+
+
+@op("from_dict_auto")
+def _(td):
+    return TensorDict.from_dict({"a": td.get("a"), "n": {"x": td.get("a") + 1}}, auto_batch_size=True)
+
+
+@op("sorted_keys")
+def _(td):
+    td = td.clone(False); td.set("0first", td.get("a")); return td.select(*td.sorted_keys)
+
+
+@op("from_module")
+def _(td):
+    p = TensorDict.from_module(LINEAR)
+    td = td.clone(False); td.set("w", td.get("a") + p.get("weight").detach().round().long().reshape(())); return td
+
+
+@op("functional_call")
+def _(td):
+    y = torch.func.functional_call(LINEAR, PARAMS.to_dict(), td.get("a").reshape(-1, 1).float())
+    td = td.clone(False); td.set("fc", y.reshape(td.batch_size).detach().round().long()); return td
+
+
+@op("tdmodule_wrapper")
+def _(td):
+    return WRAPPED(td.clone(False))
+
+
+@op("flatten_named")
+def _(td):
+    return td.flatten(0, td.batch_dims - 1)
+
+
+@op("unflatten_named")
+def _(td):
+    return td.unflatten(0, (td.batch_size[0], 1))
+
+
+@op("transpose_neg")
+def _(td):
+    return td.transpose(-1, 0)
 
 
 # ---------------------------------------------------------------- terminal ops (plain python out)
